@@ -221,6 +221,18 @@ func cliOps() []cliOp {
 			return fmt.Sprint(n), err
 		}},
 	}
+	// the same concurrent transfers with fewer workers than chunks (MaxConcurrentRequestsPerFile 2): the work
+	// channel is then still being fed when the first results (or the broadcast error) arrive
+	two := sftp.MaxConcurrentRequestsPerFile(2)
+	for _, o := range ops {
+		switch o.Name {
+		case "File.ReadAt-concurrent", "File.ReadAt-concurrent-eof", "File.WriteTo-concurrent", "File.WriteAt-concurrent", "File.ReadFrom-concurrent":
+			o2 := o
+			o2.Name += "-2workers"
+			o2.Opts = append(append([]sftp.ClientOption(nil), o.Opts...), two)
+			ops = append(ops, o2)
+		}
+	}
 	return ops
 }
 
